@@ -208,7 +208,7 @@ def interleave_items(tier, optlist, same_option_pairs=True):
 
 
 def run_lp_check(pid, level, tier, judge, rule, *, getters=("short", "long"),
-                 conform_rate=None, extra=None, vacuity=None, chunksize=4,
+                 conform_rate=None, extra=None, vacuity=None, chunksize=1,
                  interleave_opts=None):
     """Shared main() of the LP-mode checks."""
     from . import evidence, pool
